@@ -6,6 +6,7 @@
 import RapidModel.Generated.Consts
 import RapidProofs.Shrink
 import RapidProofs.TranslatedEq
+import RapidProofs.TranslatedEngineEq
 
 namespace Rapid.C07
 
@@ -64,5 +65,16 @@ theorem jsf_constants_source :
 /-- the seed of the next test case, translated from /repo's source on every run, is the model's -/
 theorem seed_step_translated (seed : UInt64) (iter : Nat) :
     Translated.findBugSeedStep (Int64.ofNat iter) seed = seed + UInt64.ofNat iter := tr_findBugSeedStep seed iter
+
+/-! ### `findBug`, as translated from /repo's engine.go on every run -/
+
+/-- **the seed the source's generation loop returns is the seed of the model's `findBug`** — by `reported_seed_is_failing_case`
+    the seed its last (the failing) test case ran with, and by `seed_schedule` base seed + 1 + 2 + … + k for test case k -/
+theorem source_findBug_seed (p : Prog) (early : Nat → Bool) (checks : Nat) (seed sd0 : UInt64) (fuel : Nat) (hc : checks < 2 ^ 56)
+    (hf : checks + checks * invalidChecksMult < fuel) :
+    ∃ v i e err s', Rapid.EM.exec (modelEOracle p early) (Rapid.Translated.findBug (Int64.ofNat checks) seed fuel) (TS.fresh, sd0) =
+      (.ok (v, i, e, (findBug p checks seed early).seed, err), s') := by
+  obtain ⟨s', h⟩ := tr_findBug p early checks seed sd0 fuel hc hf
+  exact ⟨_, _, _, _, s', h⟩
 
 end Rapid.C07
